@@ -6,7 +6,7 @@ From Coq Require Import ZArith List String Bool Lia.
 From NadaV.PyMini Require Import PyMini.
 From NadaV.Gen Require GenScalar.
 From NadaV.Model Require Import Rules Corr Mir Surface Trace Compile.
-From NadaV.Proofs Require Import Finite C02Proofs C06Proofs CompileProofs C18Proofs C03Rules.
+From NadaV.Proofs Require Import Finite C02Proofs C06Proofs CompileProofs C18Proofs C03Rules ScalarInv.
 Import ListNotations.
 Open Scope string_scope.
 Open Scope Z_scope.
@@ -43,125 +43,20 @@ Fixpoint taint_stmts (ss : list stmt) (τ : tenv) : option tenv :=
   | SDef _ _ _ _ _ :: _ => None
   end.
 
-(* ---------------------------------------------------------------- invariants *)
-Definition fresh_store (s : tstate) : Prop := forall k r, lookup k (store s) = Some r -> k <= counter s.
-Definition idlink (s : tstate) (id : option Z) (t : sty) : Prop :=
-  forall i, id = Some i -> i <= counter s /\ exists r, lookup i (store s) = Some r /\ r_ty r = TyName (mir_name t).
-Definition val_ok (s : tstate) (w : wrap) (b : bool) : Prop :=
-  exists t id v, w = WScalar t id v /\ (b = true -> fst t = MSecret) /\ idlink s id t.
-Definition env_ok (s : tstate) (ρ : env) (τ : tenv) : Prop :=
-  Forall2 (fun x a => fst x = fst a /\ exists w, snd x = BWrap w /\ val_ok s w (snd a)) ρ τ.
-Definition ext (s s1 : tstate) : Prop :=
-  counter s <= counter s1 /\ forall i, i <= counter s -> lookup i (store s1) = lookup i (store s).
-
-Lemma ext_refl s : ext s s.  Proof. split; [lia | auto]. Qed.
-Lemma ext_trans a b c : ext a b -> ext b c -> ext a c.
-Proof. intros [A1 A2] [B1 B2]. split; [lia|]. intros i Hi. rewrite B2 by lia. apply A2. exact Hi. Qed.
-
-Lemma idlink_ext s s1 id t : ext s s1 -> idlink s id t -> idlink s1 id t.
-Proof.
-  intros [E1 E2] H i Hi. destruct (H i Hi) as [Hc (r & Hl & Ht)]. split; [lia|].
-  exists r. rewrite E2 by exact Hc. auto.
-Qed.
-Lemma val_ok_ext s s1 w b : ext s s1 -> val_ok s w b -> val_ok s1 w b.
-Proof.
-  intros He (t & id & v & -> & Hb & Hl). exists t, id, v.
-  split; [reflexivity|]. split; [exact Hb|]. eapply idlink_ext; eauto.
-Qed.
-Lemma env_ok_ext s s1 ρ τ : ext s s1 -> env_ok s ρ τ -> env_ok s1 ρ τ.
-Proof.
-  intros He H. unfold env_ok in *. induction H as [|x a r ar Hxa Hrest IH]; constructor; auto.
-  destruct Hxa as [Hk (w & Hw & Hok)]. split; [exact Hk|]. exists w. split; [exact Hw | eapply val_ok_ext; eauto].
-Qed.
-Lemma env_ok_assoc s ρ τ x b : env_ok s ρ τ -> assoc x τ = Some b ->
-  exists w, assoc x ρ = Some (BWrap w) /\ val_ok s w b.
-Proof.
-  intros H. unfold env_ok in H. induction H as [|[k bd] [k' a] r ar Hxa Hrest IH]; simpl; [discriminate|].
-  destruct Hxa as [Hk (w & Hw & Hok)]. simpl in Hk, Hw. subst k'. destruct (String.eqb x k).
-  - intros E. inversion E; subst. exists w. auto.
-  - exact IH.
-Qed.
-Lemma get_wrap_ok s ρ τ x b : env_ok s ρ τ -> assoc x τ = Some b ->
-  exists w, get_wrap ρ x s = Ok (w, s) /\ val_ok s w b.
-Proof.
-  intros He Ha. destruct (env_ok_assoc _ _ _ _ _ He Ha) as (w & Hw & Hok).
-  exists w. split; [|exact Hok]. unfold get_wrap. rewrite Hw. reflexivity.
-Qed.
-
-Definition step_ok (s s1 : tstate) (w : wrap) (b : bool) : Prop :=
-  ext s s1 /\ fresh_store s1 /\ val_ok s1 w b.
-
-(* a record pushed under a fresh id *)
-Lemma pushed_step s id rec c1 l1 t v b :
-  fresh_store s -> counter s < id -> id <= c1 -> r_ty rec = TyName (mir_name t) -> (b = true -> fst t = MSecret) ->
-  step_ok s {| counter := c1; store := (id, rec) :: store s; lits := l1 |} (WScalar t (Some id) v) b.
-Proof.
-  intros Hf H1 H2 Ht Hb. split; [|split].
-  - split; simpl; [lia|]. intros i Hi. destruct (Z.eqb i id) eqn:E; [apply Z.eqb_eq in E; lia | reflexivity].
-  - intros k r Hl. simpl in Hl |- *. destruct (Z.eqb k id) eqn:E; [apply Z.eqb_eq in E; lia | apply Hf in Hl; lia].
-  - exists t, (Some id), v. repeat split; auto.
-    + inversion H; subst. simpl. exact H2.
-    + inversion H; subst. simpl. rewrite Z.eqb_refl. eexists. split; [reflexivity | simpl; exact Ht].
-Qed.
-
-Lemma new_literal_ok b0 v s w s1 :
-  new_literal b0 v s = Ok (w, s1) -> fresh_store s -> step_ok s s1 w false.
-Proof.
-  intros H Hf. unfold new_literal, mbind, alloc, lit_index, put, ret in H. cbn [counter store lits] in H.
-  match type of H with context [index_of ?k ?l 0] => destruct (index_of k l 0) end;
-    inversion H; subst; clear H; (apply pushed_step; [assumption | lia | lia | reflexivity | discriminate]).
-Qed.
-
-Lemma emit_ok t n s w s1 b :
-  (mdo id <- alloc; emit_scalar t id (n id)) s = Ok (w, s1) ->
-  (b = true -> fst t = MSecret) -> fresh_store s -> step_ok s s1 w b.
-Proof.
-  intros H Hb Hf. unfold mbind, alloc, emit_scalar, put, ret, fail in H. cbn [counter store lits] in H.
-  destruct t as [m b0]. destruct m; cbn [fst] in H; try discriminate H;
-    inversion H; subst; clear H; (apply pushed_step; [assumption | lia | lia | reflexivity | exact Hb]).
-Qed.
-
-Lemma need_id_run w s : need_id w s = match wid w with Some i => Ok (i, s) | None => Err "AttributeError" end.
-Proof. unfold need_id. destruct (wid w); reflexivity. Qed.
-
-Lemma emit1_ok t n x s w s1 b :
-  (mdo id <- alloc; mdo c <- need_id x; emit_scalar t id (n c)) s = Ok (w, s1) ->
-  (b = true -> fst t = MSecret) -> fresh_store s -> step_ok s s1 w b.
-Proof.
-  intros H Hb Hf. destruct (wid x) as [i|] eqn:Ex.
-  - apply (emit_ok t (fun _ => n i) s w s1 b); auto.
-    unfold mbind in *. unfold alloc in *. rewrite need_id_run, Ex in H. exact H.
-  - unfold mbind, alloc in H. rewrite need_id_run, Ex in H. discriminate H.
-Qed.
-Lemma emit2_ok t n x y s w s1 b :
-  (mdo id <- alloc; mdo l <- need_id x; mdo r <- need_id y; emit_scalar t id (n l r)) s = Ok (w, s1) ->
-  (b = true -> fst t = MSecret) -> fresh_store s -> step_ok s s1 w b.
-Proof.
-  intros H Hb Hf. destruct (wid x) as [i|] eqn:Ex; [destruct (wid y) as [j|] eqn:Ey|].
-  - apply (emit_ok t (fun _ => n i j) s w s1 b); auto.
-    unfold mbind in *. unfold alloc in *. rewrite !need_id_run, Ex in H. rewrite need_id_run, Ey in H. exact H.
-  - unfold mbind, alloc in H. rewrite !need_id_run, Ex in H. rewrite need_id_run, Ey in H. discriminate H.
-  - unfold mbind, alloc in H. rewrite need_id_run, Ex in H. discriminate H.
-Qed.
-Lemma emit3_ok t n x y z s w s1 b :
-  (mdo id <- alloc; mdo a <- need_id x; mdo b' <- need_id y; mdo c <- need_id z; emit_scalar t id (n a b' c)) s = Ok (w, s1) ->
-  (b = true -> fst t = MSecret) -> fresh_store s -> step_ok s s1 w b.
-Proof.
-  intros H Hb Hf.
-  destruct (wid x) as [i|] eqn:Ex; [destruct (wid y) as [j|] eqn:Ey; [destruct (wid z) as [k|] eqn:Ez|]|].
-  - apply (emit_ok t (fun _ => n i j k) s w s1 b); auto.
-    unfold mbind in *. unfold alloc in *. rewrite !need_id_run, Ex in H. rewrite !need_id_run, Ey in H. rewrite need_id_run, Ez in H. exact H.
-  - unfold mbind, alloc in H. rewrite !need_id_run, Ex in H. rewrite !need_id_run, Ey in H. rewrite need_id_run, Ez in H. discriminate H.
-  - unfold mbind, alloc in H. rewrite !need_id_run, Ex in H. rewrite need_id_run, Ey in H. discriminate H.
-  - unfold mbind, alloc in H. rewrite need_id_run, Ex in H. discriminate H.
-Qed.
-
-Lemma pick_left x y : pick [("left", 0); ("right", 1)] "left" [x; y] = need_id x.  Proof. reflexivity. Qed.
-Lemma pick_right x y : pick [("left", 0); ("right", 1)] "right" [x; y] = need_id y.  Proof. reflexivity. Qed.
-Lemma pick_child x : pick [("child", 0)] "child" [x] = need_id x.  Proof. reflexivity. Qed.
-Lemma pick_this x y z : pick roles3 "this" [x; y; z] = need_id x.  Proof. reflexivity. Qed.
-Lemma pick_arg0 x y z : pick roles3 "arg_0" [x; y; z] = need_id y.  Proof. reflexivity. Qed.
-Lemma pick_arg1 x y z : pick roles3 "arg_1" [x; y; z] = need_id z.  Proof. reflexivity. Qed.
+(* ---------------------------------------------------------------- the invariant: a tainted value is typed secret *)
+Definition PT (b : bool) (t : sty) : Prop := b = true -> fst t = MSecret.
+Notation val_ok := (ScalarInv.val_ok bool PT).
+Notation env_ok := (ScalarInv.env_ok bool PT).
+Notation step_ok := (ScalarInv.step_ok bool PT).
+Notation get_wrap_ok := (ScalarInv.get_wrap_ok bool PT).
+Notation env_ok_assoc := (ScalarInv.env_ok_assoc bool PT).
+Notation env_ok_ext := (ScalarInv.env_ok_ext bool PT).
+Notation new_literal_ok := (ScalarInv.new_literal_ok bool PT).
+Notation pushed_step := (ScalarInv.pushed_step bool PT).
+Notation emit_ok := (ScalarInv.emit_ok bool PT).
+Notation emit1_ok := (ScalarInv.emit1_ok bool PT).
+Notation emit2_ok := (ScalarInv.emit2_ok bool PT).
+Notation emit3_ok := (ScalarInv.emit3_ok bool PT).
 
 Lemma sec_true t : sec t = true -> fst t = MSecret.
 Proof. unfold sec. destruct (fst t); simpl; congruence. Qed.
@@ -181,7 +76,7 @@ Proof.
     cbn [bin_taint] in Hspec; try discriminate H; try contradiction.
   - destruct Hspec as (Hc & (z & Hz) & Hs). rewrite Hz in H.
     apply orb_false_iff in Hs. destruct Hs as [Hs1 Hs2].
-    rewrite (sec_of_taint _ _ Hx Hs1), (sec_of_taint _ _ Hy Hs2). simpl. destruct (op_eqb o OPublicEquals); eapply new_literal_ok; eauto.
+    rewrite (sec_of_taint _ _ Hx Hs1), (sec_of_taint _ _ Hy Hs2). simpl. destruct (op_eqb o OPublicEquals); (eapply new_literal_ok; [exact H | intros E; discriminate E | exact Hf]).
   - destruct Hspec as (Hr & Hc & Ht). subst roles. rewrite pick_left, pick_right in H.
     apply (emit2_ok t0 (fun l r => ABinary name l r) _ _ s w s1 _ H); auto.
     destruct (op_eqb o OPublicEquals) eqn:Eo; [discriminate|]. intros Hb. apply Ht; [reflexivity|].
@@ -203,7 +98,7 @@ Proof.
                                       (operand ta (value_of (WScalar ta ida va)) 0) [])) as [e | t0 v0 | name t0 roles | k | e | e];
     cbn [un_taint] in Hspec; try discriminate H.
   - destruct Hspec as (Hc & (z & Hz) & Hs). rewrite Hz in H.
-    rewrite (sec_of_taint _ _ Hx Hs). destruct u; eapply new_literal_ok; eauto.
+    rewrite (sec_of_taint _ _ Hx Hs). destruct u; (eapply new_literal_ok; [exact H | intros E; discriminate E | exact Hf]).
   - destruct Hspec as (Hr & Hc & Ht). subst roles. rewrite pick_child in H.
     apply (emit1_ok t0 (fun c => AUnary name c) _ s w s1 _ H); auto.
     destruct u; [|discriminate]. intros Hb. apply Ht; [reflexivity|]. unfold sec. rewrite (Hx Hb). reflexivity.
@@ -238,15 +133,16 @@ Lemma rhs_ok ρ τ r s w s1 b :
   eval_rhs G ρ r s = Ok (w, s1) -> taint_rhs τ r = Some b -> env_ok s ρ τ -> fresh_store s -> step_ok s s1 w b.
 Proof.
   intros H Ht He Hf. destruct r; try discriminate Ht.
-  - (* RLit *) cbn [taint_rhs] in Ht. inversion Ht; subst. cbn [eval_rhs] in H. eapply new_literal_ok; eauto.
+  - (* RLit *) cbn [taint_rhs] in Ht. inversion Ht; subst. cbn [eval_rhs] in H.
+    eapply new_literal_ok; [exact H | intros E; discriminate E | exact Hf].
   - (* RInput *)
     cbn [taint_rhs] in Ht. destruct t as [[m b0]|]; try discriminate Ht. inversion Ht; subst.
     cbn [eval_rhs mk_input] in H. destruct m; unfold mbind, alloc, put, ret, fail in H; cbn [counter store lits] in H;
       try discriminate H; inversion H; subst; (apply pushed_step; [assumption | lia | lia | reflexivity | ]);
-      simpl; intros E; try discriminate E; reflexivity.
+      unfold PT; simpl; intros E; try discriminate E; reflexivity.
   - (* RRandom *)
     cbn [taint_rhs] in Ht. inversion Ht; subst. cbn [eval_rhs] in H.
-    apply (emit_ok (MSecret, b0) (fun _ => ARandom) s w s1 true H); auto.
+    apply (emit_ok (MSecret, b0) (fun _ => ARandom) s w s1 true H); [intros _; reflexivity | exact Hf].
   - (* RBin *)
     cbn [taint_rhs] in Ht.
     destruct (assoc a τ) as [x|] eqn:Ea; [|discriminate Ht]. destruct (assoc b0 τ) as [y|] eqn:Eb; [|discriminate Ht].
@@ -280,7 +176,7 @@ Proof.
     destruct Hwa as (ta & ida & va & -> & Hx & Hl). destruct ta as [m b1].
     destruct (numeric_base b1); [|discriminate H].
     unfold mbind in H. destruct (new_literal b1 k s) as [[l s2]| |] eqn:El; try discriminate H.
-    destruct (new_literal_ok _ _ _ _ _ El Hf) as (Hext & Hf2 & (tl & idl & vl & -> & _ & _)).
+    destruct (new_literal_ok _ _ _ _ _ false El ltac:(intros E; discriminate E) Hf) as (Hext & Hf2 & (tl & idl & vl & -> & _ & _)).
     assert (Hb : step_ok s2 s1 w (if op_eqb OAdd OPublicEquals then false else b || false)).
     { eapply binop_ok; eauto. discriminate. }
     simpl in Hb. rewrite orb_false_r in Hb. destruct Hb as (E2 & F2 & V2).
